@@ -16,7 +16,7 @@ RULE = (
     "entries inside real visits or padding"
 )
 REQUIRED = {"cmp_state_terms": 150, "cmp_suffstats": 150, "cmp_mstep": 60, "cmp_personalize": 20, "cmp_fit": 10, "twins_garbage": 30, "twins_widened": 12,
-            "masked_in_visit_entries_cases": 8, "padding_cases": 12, "cmp_reput": 100}
+            "masked_in_visit_entries_cases": 8, "padding_cases": 12, "cmp_reput": 100, "cmp_noise_recount": 15}
 ASSUMPTIONS = [
     "garbage twins: bit-identity demanded (same shapes and op order; masked numbers must never enter a sum)",
     "widened twins: 5e-6 relative; MCMC-based personalisation and fits are not judged under widening (a one-ulp change may legitimately flip a "
@@ -212,6 +212,21 @@ def run_shard(spec, ctx):
                     try:
                         model.update_parameters(ca, Sa, burn_in=True)
                         model.update_parameters(cb, Sb, burn_in=True)
+                        if "noise_std" in model.parameters_names and "noise_recount_done" not in base_cache:
+                            # observation counts and noise estimates use observed entries only: RMS residual over the table's observed entries
+                            base_cache["noise_recount_done"] = True
+                            mod = sa["model"]
+                            mod = (mod.weighted_value if isinstance(mod, WeightedTensor) else mod).double().numpy()
+                            yy, mm = ds.values.double().numpy(), ds.mask.numpy().astype(bool)
+                            got = ca["noise_std"].double().numpy().reshape(-1)
+                            res2 = np.where(mm, (yy - mod) ** 2, 0.0)
+                            want = np.sqrt(res2.sum(axis=(0, 1)) / mm.sum(axis=(0, 1))) if got.size > 1 else np.sqrt(res2.sum() / mm.sum()).reshape(1)
+                            ctx.count("cmp_noise_recount")
+                            ctx.evaluated()
+                            if not np.allclose(got, want, rtol=5e-4, atol=1e-6):
+                                ctx.violation("masked/noise-estimate-not-over-observed-entries",
+                                              "noise level after a memory-less M-step is not the RMS residual over the observed entries of the table",
+                                              dict(case, twin="none"), got=got.tolist(), want=want.tolist())
                         for pn in model.parameters_names:
                             ok &= bool(compare(f"parameter '{pn}' after one M-step", "mstep", ca[pn], cb[pn], exact, case))
                     except Exception as e:
@@ -254,12 +269,12 @@ def run_shard(spec, ctx):
                     with contextlib.redirect_stdout(io.StringIO()):
                         if "fit" not in base_cache:
                             ma = new_model()
-                            ma.fit(ds, "mcmc_saem", n_iter=8, seed=seed_p, progress_bar=False)
+                            ma.fit(ds, "mcmc_saem", n_iter=10, n_burn_in_iter=3, n_burn_in_iter_frac=None, seed=seed_p, progress_bar=False)
                             base_cache["fit"] = {k: v.clone() for k, v in ma.parameters.items()}
                         mb = new_model()
-                        mb.fit(tw, "mcmc_saem", n_iter=8, seed=seed_p, progress_bar=False)
+                        mb.fit(tw, "mcmc_saem", n_iter=10, n_burn_in_iter=3, n_burn_in_iter_frac=None, seed=seed_p, progress_bar=False)
                     for pn, va in base_cache["fit"].items():
-                        compare(f"fitted parameter '{pn}' (8 iterations, same seed)", "fit", va, mb.parameters[pn], True, case)
+                        compare(f"fitted parameter '{pn}' (10 iterations, 7 of them with memory, same seed)", "fit", va, mb.parameters[pn], True, case)
                 except Exception as e:
                     ctx.count("fit_skipped")
                     ctx.note(f"fit_skipped_{type(e).__name__}", str(e)[:160])
